@@ -19,6 +19,9 @@ Assignment expressions elsewhere (right operand of and/or, comprehensions) are l
   * a, b = os.path.split(p) / os.path.splitext(p)  (p built from names and os.path calls)   -> a = <call>[0]; b = <call>[1]
   * match <name or attribute>: case <literal> | <literal>: ... case Cls(): ... case _: ...   -> the if / elif / else chain with == tests,
     `is` for None/True/False, isinstance for class patterns without sub-patterns (other patterns: the statement is left alone)
+  * for x in itertools.chain.from_iterable(f(y) for y in Y): body   (no break, no else)   -> for y in Y: for x in f(y): body
+  * operator.itemgetter(i, j) / operator.attrgetter('a')   -> lambda s: (s[i], s[j]) / lambda o: o.a   (same value for every call)
+  * P = functools.partial(F, *a, **k) at module level (bound once) ... P(*b, **l)   -> F(*a, *b, **k, **l)  (l overrides k)
   * a, b = x, y  (names on the left, no left name read by a later right side)   -> a = x; b = y
   * a = b = v    (names only)                                                    -> a = v; b = a   (b = v for a plain name/constant v)
 """
@@ -129,9 +132,16 @@ class Normaliser(ast.NodeTransformer):
         # spellings of the os.path module and of its functions in this file
         self.path_mods = set(["os.path"])
         self.path_funcs = {}
+        self.op_mods, self.op_funcs = set(), {}          # spellings of operator / operator.itemgetter|attrgetter
+        self.ft_mods, self.ft_partial = set(), set()     # spellings of functools / functools.partial
+        self.partials = {}                               # module level name -> the partial(...) call it is bound to (bound once)
         for n in ast.walk(tree) if tree is not None else ():
             if isinstance(n, ast.Import):
                 for a in n.names:
+                    if a.name == "operator":
+                        self.op_mods.add(a.asname or "operator")
+                    if a.name == "functools":
+                        self.ft_mods.add(a.asname or "functools")
                     if a.name == "os.path" and a.asname:
                         self.path_mods.add(a.asname)
                     if a.name in ("posixpath", "ntpath"):
@@ -142,6 +152,35 @@ class Normaliser(ast.NodeTransformer):
                         self.path_mods.add(a.asname or "path")
                     if n.module in ("os.path", "posixpath", "ntpath"):
                         self.path_funcs[a.asname or a.name] = a.name
+                    if n.module == "operator" and a.name in ("itemgetter", "attrgetter"):
+                        self.op_funcs[a.asname or a.name] = a.name
+                    if n.module == "functools" and a.name == "partial":
+                        self.ft_partial.add(a.asname or a.name)
+        if tree is not None:
+            bound = {}
+            for st in tree.body:
+                for y in ast.walk(st) if not isinstance(st, (ast.FunctionDef, ast.AsyncFunctionDef, ast.ClassDef)) else ():
+                    if isinstance(y, ast.Name) and isinstance(y.ctx, (ast.Store, ast.Del)):
+                        bound[y.id] = bound.get(y.id, 0) + 1
+            rebound_inside = set(y.id for y in ast.walk(tree) if isinstance(y, ast.Global) for y in [ast.Name(id=z, ctx=ast.Load()) for z in y.names])
+            for st in tree.body:
+                if isinstance(st, ast.Assign) and len(st.targets) == 1 and isinstance(st.targets[0], ast.Name) and isinstance(st.value, ast.Call) \
+                        and self._is_partial(st.value.func) and st.value.args and isinstance(st.value.args[0], ast.Name) \
+                        and bound.get(st.targets[0].id) == 1 and st.targets[0].id not in rebound_inside \
+                        and not any(isinstance(a, ast.Starred) for a in st.value.args) and not any(k.arg is None for k in st.value.keywords):
+                    self.partials[st.targets[0].id] = st.value
+
+    def _is_partial(self, fn):
+        if isinstance(fn, ast.Name):
+            return fn.id in self.ft_partial
+        return isinstance(fn, ast.Attribute) and fn.attr == "partial" and isinstance(fn.value, ast.Name) and fn.value.id in self.ft_mods
+
+    def _getter_kind(self, fn):
+        if isinstance(fn, ast.Name):
+            return self.op_funcs.get(fn.id)
+        if isinstance(fn, ast.Attribute) and fn.attr in ("itemgetter", "attrgetter") and isinstance(fn.value, ast.Name) and fn.value.id in self.op_mods:
+            return fn.attr
+        return None
 
     def _path_func(self, fn):
         """name of the os.path function the callee expression denotes, or None"""
@@ -353,12 +392,28 @@ class Normaliser(ast.NodeTransformer):
                         if isinstance(v, list):
                             new_list.extend(v)
                             continue
-                    if v is not None:
-                        new_list.append(v)
+                        if v is None:
+                            continue
+                    # entries that are not nodes keep their position: the None key of a ** splice in a dict display, the None
+                    # default of a keyword-only parameter
+                    new_list.append(v)
                 setattr(node, field, new_list)
         return node
 
+    def _is_chain_from_iterable(self, fn):
+        t = ast.unparse(fn)
+        return t in ("chain.from_iterable", "itertools.chain.from_iterable")
+
     def visit_For(self, st):
+        it = st.iter
+        if isinstance(it, ast.Call) and self._is_chain_from_iterable(it.func) and len(it.args) == 1 and not it.keywords and not st.orelse \
+                and isinstance(it.args[0], (ast.GeneratorExp, ast.ListComp)) and len(it.args[0].generators) == 1 \
+                and not it.args[0].generators[0].ifs and not it.args[0].generators[0].is_async \
+                and not any(isinstance(y, ast.Break) for b in st.body for y in ast.walk(b)):
+            gen = it.args[0].generators[0]
+            inner = ast.copy_location(ast.For(target=st.target, iter=it.args[0].elt, body=st.body, orelse=[]), st)
+            outer = ast.copy_location(ast.For(target=gen.target, iter=gen.iter, body=[inner], orelse=[]), st)
+            return self.visit(outer)
         if _pairs_unrollable(st):
             res = []
             for e in st.iter.elts:
@@ -388,6 +443,34 @@ class Normaliser(ast.NodeTransformer):
 
     def visit_Call(self, c):
         self.generic_visit(c)
+        # P(...) for a module level P = partial(F, ...)
+        if isinstance(c.func, ast.Name) and c.func.id in self.partials and not any(isinstance(a, ast.Starred) for a in c.args) \
+                and not any(k.arg is None for k in c.keywords):
+            pc = self.partials[c.func.id]
+            later = set(k.arg for k in c.keywords)
+            kws = [copy.deepcopy(k) for k in pc.keywords if k.arg not in later] + c.keywords
+            new = ast.Call(func=copy.deepcopy(pc.args[0]), args=[copy.deepcopy(a) for a in pc.args[1:]] + c.args, keywords=kws)
+            return ast.copy_location(new, c)
+        gk = self._getter_kind(c.func)
+        if gk == "itemgetter" and c.args and not c.keywords and all(isinstance(a, ast.Constant) for a in c.args):
+            prm = ast.arg(arg="_seq")
+            subs = [ast.Subscript(value=ast.Name(id="_seq", ctx=ast.Load()), slice=copy.deepcopy(a), ctx=ast.Load()) for a in c.args]
+            body = subs[0] if len(subs) == 1 else ast.Tuple(elts=subs, ctx=ast.Load())
+            lam = ast.Lambda(args=ast.arguments(posonlyargs=[], args=[prm], kwonlyargs=[], kw_defaults=[], defaults=[]), body=body)
+            return ast.copy_location(lam, c)
+        if gk == "attrgetter" and c.args and not c.keywords and all(isinstance(a, ast.Constant) and isinstance(a.value, str)
+                                                                    and all(p0.isidentifier() for p0 in a.value.split(".")) for a in c.args):
+            prm = ast.arg(arg="_obj")
+
+            def chain(path):
+                e = ast.Name(id="_obj", ctx=ast.Load())
+                for p0 in path.split("."):
+                    e = ast.Attribute(value=e, attr=p0, ctx=ast.Load())
+                return e
+            subs = [chain(a.value) for a in c.args]
+            body = subs[0] if len(subs) == 1 else ast.Tuple(elts=subs, ctx=ast.Load())
+            lam = ast.Lambda(args=ast.arguments(posonlyargs=[], args=[prm], kwonlyargs=[], kw_defaults=[], defaults=[]), body=body)
+            return ast.copy_location(lam, c)
         if isinstance(c.func, ast.Name) and c.func.id == "getattr" and len(c.args) == 2 and not c.keywords \
                 and isinstance(c.args[1], ast.Constant) and isinstance(c.args[1].value, str) and c.args[1].value.isidentifier():
             return ast.copy_location(ast.Attribute(value=c.args[0], attr=c.args[1].value, ctx=ast.Load()), c)
